@@ -5,9 +5,11 @@
    command slot, the name -> parts -> path computation of layout.py followed by
    the kernel's resolution of '.', '..' and empty components.  `Confined` is
    expected to fail on the unchanged tree (the layouts join the parts
-   unchecked); the *_asis.cfg configuration lists the escaping names as named
-   deviation classes so that TLC passes and documents them, *_ideal.cfg has no
-   deviations and its failure is the design-level finding.  WirePathUsers.tla:
+   unchecked): WirePath_asis.cfg lists the escaping names as named deviation
+   classes so that TLC passes and documents them, WirePath_asis_strict.cfg has
+   no deviations and its failure is the design-level finding,
+   WirePath_ideal.cfg switches the candidate repair on (names with an empty,
+   '.', '..' or NUL part are refused) and must pass.  WirePathUsers.tla:
    two users, an action of user x leaves user y's store unchanged.
 2. spec -> code: every enumerated (layout, name) state is concretised and sent,
    as an IMAP literal, in every command slot that takes a mailbox argument, by
@@ -968,14 +970,21 @@ def main(tier: str) -> int:
         return run.finish()
     ideal = tlc.run_tlc('WirePath.tla', 'WirePath_ideal.cfg', workers=16)
     run.add_model(ideal, 'WirePath_ideal.cfg')
-    if ideal.ok:
-        run.notes['ideal'] = 'Confined holds without deviations'
-    elif ideal.violated == ['Confined']:
-        run.notes['ideal'] = ('Confined fails without deviations (expected while the layouts '
-                              'join name parts unchecked): '
-                              + (_initial_counterexample(ideal.output) or ''))
+    if not ideal.ok:
+        run.machinery(f'WirePath_ideal.cfg (candidate repair, no deviations) failed: '
+                      f'{ideal.violated or ideal.error}')
+        return run.finish()
+    strict = tlc.run_tlc('WirePath.tla', 'WirePath_asis_strict.cfg', workers=16)
+    run.add_model(strict, 'WirePath_asis_strict.cfg')
+    if strict.ok:
+        run.notes['asis_strict'] = 'Confined holds for the tree as modelled without deviations'
+    elif strict.violated == ['Confined']:
+        run.notes['asis_strict'] = (
+            'Confined fails for the tree as modelled when no deviation is excused (expected '
+            'while the layouts join name parts unchecked); first counterexample: '
+            + (_initial_counterexample(strict.output) or ''))
     else:
-        run.machinery(f'WirePath_ideal.cfg: {ideal.violated or ideal.error}')
+        run.machinery(f'WirePath_asis_strict.cfg: {strict.violated or strict.error}')
         return run.finish()
     for cfg, expect_ok in (('WirePathUsers_ideal.cfg', True), ('WirePathUsers_shared.cfg', False)):
         r = tlc.run_tlc('WirePathUsers.tla', cfg, workers=16)
@@ -1042,30 +1051,36 @@ def main(tier: str) -> int:
 
 def selftest(run: Run, store: Store, graph) -> None:
     """(b) of HOWTO 'proving the binding works': corrupt the expected value on
-    the spec side (pretend TLC said the name is confined) and require the
-    judgement to come out as a signature no known finding can excuse."""
+    the spec side and require the judgement to come out as a signature that
+    no known finding can excuse.  Uses a fabricated execution (one stat of the
+    base directory), so it does not depend on the tree under test."""
     st = next((s for s in graph.nodes.values()
                if str(s['layout']) == 'fs' and show(s['name']) == '..'), None)
     if st is None:
         run.machinery('selftest: state fs ".." not in the graph')
         return
-    ex = execute(store, 'fs', 'A', 'STATUS', b'..')
-    escapes, beyond = judge(store, ex.base, ex, 'STATUS', st)
+    base = os.path.join(store.top, 'selftest', 'base')
+    ex = Exec()
+    ex.base = base
+    ex.cond = ('OK', None, '')
+    ex.touch = [('cmd', 'os.stat', FsGuard.READ, base + '/user1/..', base, 'base')]
+    esc1, beyond1 = judge(store, base, ex, 'STATUS', st)
+    sig1 = signature('fs', 'STATUS', st, beyond1) if esc1 else None
     fake = dict(st)
-    fake['bad'] = frozenset()
-    esc2, beyond2 = judge(store, ex.base, ex, 'STATUS', fake)
+    fake['bad'] = frozenset()                      # "TLC says the name is confined"
+    esc2, beyond2 = judge(store, base, ex, 'STATUS', fake)
     sig2 = signature('fs', 'STATUS', fake, beyond2) if esc2 else None
-    fake3 = dict(st)
+    fake3 = dict(st)                               # "TLC says only the root may be touched"
     fake3['view'] = {g: dict(v, allowed=frozenset({'in', 'root'})) for g, v in st['view'].items()}
-    esc3, beyond3 = judge(store, ex.base, ex, 'STATUS', fake3)
+    esc3, beyond3 = judge(store, base, ex, 'STATUS', fake3)
     sig3 = signature('fs', 'STATUS', fake3, beyond3) if esc3 else None
-    ok = bool(escapes) == bool(st['bad']) and (
-        not escapes or (sig2 is not None and sig2 not in run.known.open
-                        and sig3 is not None and sig3 not in run.known.open and bool(beyond3)))
-    run.notes['selftest'] = {'observed_escape': bool(escapes), 'corrupted_bad_sig': sig2,
+    ok = (sig1 == 'fs:STATUS:FS_DotDotComponent'
+          and sig2 is not None and 'ModelSaysConfined' in sig2 and sig2 not in run.known.open
+          and sig3 is not None and '!' in sig3 and sig3 not in run.known.open)
+    run.notes['selftest'] = {'true_model_sig': sig1, 'corrupted_bad_sig': sig2,
                              'corrupted_allowed_sig': sig3, 'ok': ok}
     if not ok:
-        run.machinery(f'selftest: a corrupted model value was not detected ({sig2}, {sig3})')
+        run.machinery(f'selftest: a corrupted model value was not detected ({sig1}, {sig2}, {sig3})')
 
 
 def replay(path: str) -> int:
